@@ -145,7 +145,13 @@ func (m *modernHandler) OnResourcePackResponse(bundle *ResponseBundle) (bool, er
 			queued = outstandingResourcePacks[0]
 		} else {
 			queued = outstandingResourcePacks[0]
-			m.outstandingPacks.Remove(id, queued)
+			// Pop the head but keep the remaining packs in queue order
+			// (MultiMap.Remove moves the last pack into the removed slot).
+			rest := append([]*Info(nil), outstandingResourcePacks[1:]...)
+			m.outstandingPacks.RemoveAll(id)
+			for _, pack := range rest {
+				m.outstandingPacks.Put(id, pack)
+			}
 		}
 	}
 
